@@ -21,7 +21,7 @@ case "$WHAT" in
   *)      BIN=diffrun; ARGS="-prop $P -profiles $WHAT -seed 77 -n $N -out $W/replays" ;;
 esac
 ( cd $W/harness && go build -tags verif -o $W/$BIN ./cmd/$BIN ) > $W/build.log 2>&1 || { echo "$(basename $D) build failed: $(tail -3 $W/build.log)"; cleanup; exit 2; }
-if [ "$BIN" = wirerun ]; then
+if [ "$BIN" = wirerun ] || [ "$BIN" = sysrun ]; then
   ( cd $W/repo && go build -o $W/redka-server ./cmd/redka ) > $W/build2.log 2>&1 || { echo "$(basename $D) server build failed"; cleanup; exit 2; }
   ( cd $W/harness && go build -tags verif -o $W/srcfacts ./cmd/srcfacts ) >> $W/build2.log 2>&1
   export HX_SERVER_BIN=$W/redka-server HX_SRCFACTS="$W/srcfacts -repo $W/repo"
